@@ -9,15 +9,19 @@ Definition builtin_registry : registry :=
   match registry_of_rows builtin_rows with Some r => r | None => [] end.
 
 Definition source_variant : option variant :=
-  variant_of_texts TYPE_REGEX_text TYPE_21_REGEX_text PREFIX_21_REGEX_text PROPERTY_NAME_REGEX_text.
+  variant_of_texts TYPE_REGEX_text TYPE_21_REGEX_text PREFIX_21_REGEX_text PROPERTY_NAME_REGEX_text
+                   EXTENSION_DEFINITION_ID_REGEX_text.
 
 Open Scope string_scope.
 Definition show_end (m : end_mode) : string := match m with Dollar => "Dollar" | Strict => "Strict" end.
 Definition show_pmode (m : prop_mode) : string := match m with FirstCharOnly => "FirstCharOnly" | FullRule => "FullRule" end.
+Definition show_hyph (m : hyphen_mode) : string := match m with AnyHyphens => "AnyHyphens" | SingleHyphens => "SingleHyphens" end.
+Definition show_extid (m : extid_mode) : string := match m with ViaTypeRegex => "ViaTypeRegex" | OwnRegex => "OwnRegex" end.
 Definition show_variant (v : option variant) : string :=
   match v with
   | None => "unknown-regex-text"
   | Some v => show_end (end20 v) ++ " " ++ show_end (end21 v) ++ " " ++ show_pmode (pmode v)
+              ++ " " ++ show_hyph (hyph21 v) ++ " " ++ show_extid (extid v)
   end.
 Definition show_source : string :=
   show_variant source_variant ++ " rows=" ++ show_nat (List.length builtin_rows)
